@@ -53,7 +53,7 @@ Fixpoint check_run (sch : schema) (s : sess) (ops : list op) (exp : list res) (d
     let '(s1, r1) := step sch s o in
     if s_declined s1 then (2, i)%nat
     else if negb (res_eqb r1 r) then (3, i)%nat
-    else match s_dirty s1 with S site => ((100 + site)%nat, i) | O =>
+    else match s_dirty s1 with S _ => ((100 + s_dirty s1)%nat, i) | O =>
     if is_dump_op o then
       match dumps with
       | d :: dumps' => if dump_eqb (dump_of sch (s_committed s1)) d then check_run sch s1 ops' exp' dumps' (S i) else (4, i)%nat
